@@ -16,6 +16,9 @@
                                            -> state after each event, `,`-joined | result per writer
         s<i> = writer i runs from its stat to its first Read (stat + open, or the same-size return);
         d<i> = writer i is handed its next source item and runs to its next Read / return.
+    trace put <init> <d> <size> <script>   -> the model's effects as length effects: o<trunc> w<off>:<n> t<n> r<n> u  (| -)
+    trace chunk <init> <size> <start> <stop> <cd> <script>
+    shape <size> <len0> <n> eff*           -> true|false   (`noEarlyFull` evaluated on a REAL syscall trace)
     sha <hex>                              -> <hex digest>
 -/
 import OllamaVerif.Model.BlobCache
@@ -179,6 +182,38 @@ def concCmd (init : FileSt) (d : Digest) (size : Nat) (scripts : List Script) (e
     (acc.1 ++ [showSt s'.file], s')) ([], s0)
   s!"{joinWith "," states} | {joinWith "," (sEnd.ws.map showW)}"
 
+def showSizeEff : SizeEff → Option String
+  | .openS t => some s!"o{if t then 1 else 0}"
+  | .writeS off n => some s!"w{off}:{n}"
+  | .truncS n => some s!"t{n}"
+  | .replaceS n => some s!"r{n}"
+  | .removeS => some "u"
+  | .otherS => none
+
+def pSizeEff : TP SizeEff := do
+  let t ← tok
+  match t.toList with
+  | ['o', '0'] => pure (.openS false)
+  | ['o', '1'] => pure (.openS true)
+  | ['u'] => pure .removeS
+  | 't' :: ds => match (String.ofList ds).toNat? with
+    | some n => pure (.truncS n)
+    | none => failure
+  | 'r' :: ds => match (String.ofList ds).toNat? with
+    | some n => pure (.replaceS n)
+    | none => failure
+  | 'w' :: ds =>
+    match (String.ofList ds).splitOn ":" with
+    | [a, b] => match a.toNat?, b.toNat? with
+      | some off, some n => pure (.writeS off n)
+      | _, _ => failure
+    | _ => failure
+  | _ => failure
+
+def traceOut (es : List Eff) : String :=
+  let l := (es.map Eff.toSize).filterMap showSizeEff
+  if l.isEmpty then "-" else joinWith " " l
+
 def handle (toks : List String) : Option String :=
   match toks with
   | "hist" :: rest =>
@@ -204,6 +239,19 @@ def handle (toks : List String) : Option String :=
     runTP (do
       let variant ← nat; let man ← pSt; let blob ← pSt; let d ← hex; let kd ← pKind; let n ← nat
       pure (crashOut man (linkFileEffs H (variant == 2) man blob d) kd n)) rest
+  | "trace" :: "put" :: rest =>
+    runTP (do
+      let init ← pSt; let d ← hex; let size ← nat; let s ← pScript
+      pure (traceOut (copyNamedEffs H init d size s).1)) rest
+  | "trace" :: "chunk" :: rest =>
+    runTP (do
+      let init ← pSt; let size ← nat; let a ← nat; let b ← nat; let cd ← hex; let s ← pScript
+      pure (traceOut (chunkEffs H init size a b cd s).1)) rest
+  | "shape" :: rest =>
+    runTP (do
+      let size ← nat; let len0 ← nat
+      let es ← listOf pSizeEff
+      pure (toString (noEarlyFull size len0 0 es))) rest
   | "conc" :: rest =>
     runTP (do
       let init ← pSt; let d ← hex; let size ← nat
